@@ -181,13 +181,18 @@ PROPS["C16"] = dict(
          "tokens, bad octets, empty fields) + arbitrary ASCII and arbitrary bytes + IPv6 literals (outside the model: only 'no fault'); distinct = distinct input strings",
     trusted_base=["Spec/IPFilterRule.lean: abstract syntax, rendering and denotation of the supported IPFilterRule form",
                   "Model/FlowDesc.lean: model of flowdesc.go and of the Go library functions it uses (strings.Fields, ParseUint, net.ParseCIDR/ParseIP for IPv4), "
-                  "tied by the differential stream 'flowdesc' on the real ParseFlowDesc"],
+                  "tied by the differential stream 'flowdesc' on the real ParseFlowDesc",
+                  "Model/Xlate.lean flowDescAttrs: model of newFlowDesc (gtp5g.go), tied by the fd.pack lines on the real newFlowDesc (hook VerifNewFlowDesc)"],
     assumptions=["ASCII input without ':' / '%' in address tokens is modelled; IPv6 literals are only checked for 'no fault' on the implementation"],
     level_text="Kernel-checked (Props/C16.lean): parse_render — for every rule of the grammar, every decimal spelling of its numerals and every spacing, "
                "the model of ParseFlowDesc returns exactly the filter the rule denotes (addresses incl. masking, all 256 octets and 33 prefix lengths by evaluation, "
-               "ports by induction over digit lists and item lists); parse_total; pack_unpack for the port words. Tie: 20k (quick) / 5M (thorough) strings on the real parser.",
+               "ports by induction over digit lists and item lists); parse_total; pack_unpack for the port words; packed_decodes — for every such rule, spelling and spacing the "
+               "attribute list newFlowDesc builds, read by the independent reader of the gtp5g rule format (Spec/Gtp5gRead.lean), is the filter the rule denotes with source and destination exchanged for uplink PDRs. "
+               "Tie: 20k (quick) / 5M (thorough) strings on the real parser; fd.rule lines (the specification's denotation of the rule against the implementation's answer) and "
+               "fd.pack lines (the bytes of the real newFlowDesc, decoded by the Lean netlink reader, against the denotation, both directions).",
     level_note="Trusted: Lean kernel; the grammar/denotation spec; the model of the Go standard-library functions (checked against Go on every run, not proved equal). "
-               "The netlink packing of the filter (attribute layout, src/dst swap) is part of C02's S-drv stream.",
+               "The attribute numbers of the gtp5g flow-description format are transcribed by hand (Spec/Gtp5gRead.lean) and compared with go-gtp5gnl's constants by the regenerated Gen/Consts.lean; "
+               "packed_decodes is at the level of the attribute tree (the byte layer is C02's decodeTree_encList, for attribute lists within the 16-bit netlink length).",
 )
 
 
